@@ -395,6 +395,9 @@ def to_node(v):
     if isinstance(v, StrV):
         return v.node
     if isinstance(v, Const) and isinstance(v.v, str):
+        if type(v).__name__ == "EnumConst":
+            from .model import AnalysisError
+            raise AnalysisError("text made from the enum member %s.%s (how it prints depends on the Python version)" % v.enum)
         return SLit(v.v)
     if isinstance(v, SNode):
         return v
